@@ -711,19 +711,19 @@ func (i *AgentIPC) filterMembers(members []serf.Member, tags map[string]string,
 	// Pre-compile all the regular expressions
 	tagsRe := make(map[string]*regexp.Regexp)
 	for tag, expr := range tags {
-		re, err := regexp.Compile(fmt.Sprintf("^%s$", expr))
+		re, err := compileAnchored(expr)
 		if err != nil {
 			return nil, fmt.Errorf("Failed to compile regex: %v", err)
 		}
 		tagsRe[tag] = re
 	}
 
-	statusRe, err := regexp.Compile(fmt.Sprintf("^%s$", status))
+	statusRe, err := compileAnchored(status)
 	if err != nil {
 		return nil, fmt.Errorf("Failed to compile regex: %v", err)
 	}
 
-	nameRe, err := regexp.Compile(fmt.Sprintf("^%s$", name))
+	nameRe, err := compileAnchored(name)
 	if err != nil {
 		return nil, fmt.Errorf("Failed to compile regex: %v", err)
 	}
@@ -752,6 +752,17 @@ OUTER:
 	}
 
 	return result, nil
+}
+
+// compileAnchored compiles a filter expression so that it has to match the
+// whole value. The expression is validated on its own first, and then wrapped
+// in a group so that the anchors apply to all of it (and not only to the
+// first and the last alternative of "a|b", or to an escape character).
+func compileAnchored(expr string) (*regexp.Regexp, error) {
+	if _, err := regexp.Compile(expr); err != nil {
+		return nil, err
+	}
+	return regexp.Compile(fmt.Sprintf("^(?:%s)$", expr))
 }
 
 func (i *AgentIPC) handleInstallKey(client *IPCClient, seq uint64) error {
